@@ -65,9 +65,9 @@ type State struct {
 // epoch identifies the unknown heap a state started from: the entry heap, the heap after a havoc of
 // everything, or the merge of two such.
 type epoch struct {
-	id      int
-	cond    *Term // merge: cond ? b : a
-	a, b    *epoch
+	id   int
+	cond *Term // merge: cond ? b : a
+	a, b *epoch
 }
 
 func (s State) clone() State {
@@ -120,6 +120,7 @@ type Enc struct {
 	depth         int
 	inputs        []NamedTerm
 	hints         []*Term
+	useWriterLog  bool
 	curCon        *FuncContract
 	closureHook   func(fr *Frame, x *ssa.MakeClosure, fnTerm *Term, st *State)
 }
@@ -556,18 +557,21 @@ func (e *Enc) alive0(r *Term) *Term { return e.tb.Gt(r, e.tb.Int(0)) }
 // ---------- frames ----------
 
 type Frame struct {
-	fn      *ssa.Function
-	vals    map[ssa.Value]Val
-	out     map[*ssa.BasicBlock]State
-	edge    map[[2]*ssa.BasicBlock]*Term
-	rets    []retInfo
-	parent  *Frame
-	entry   State
-	con     *FuncContract
-	loops   map[*ssa.BasicBlock]int // loop head -> ordinal (source order)
-	inlined bool
-	panics  []*Term // reach conditions of panics (for contracts: not a normal return)
-	oldEnv  *evalEnv
+	fn         *ssa.Function
+	vals       map[ssa.Value]Val
+	out        map[*ssa.BasicBlock]State
+	edge       map[[2]*ssa.BasicBlock]*Term
+	rets       []retInfo
+	parent     *Frame
+	entry      State
+	con        *FuncContract
+	loops      map[*ssa.BasicBlock]int // loop head -> ordinal (source order)
+	inlined    bool
+	panics     []*Term // reach conditions of panics (for contracts: not a normal return)
+	oldEnv     *evalEnv
+	assertDone map[int]bool
+	args       []Val
+	rangeCount map[*ssa.Range]*Term // ghost iteration counter of range-over-string loops
 }
 
 type retInfo struct {
@@ -735,9 +739,10 @@ func loopOrdinals(fn *ssa.Function) map[*ssa.BasicBlock]int {
 
 // encodeFunc symbolically executes fn from state `in`.
 func (e *Enc) encodeFunc(fn *ssa.Function, args []Val, bindings []Val, in State, parent *Frame, con *FuncContract, setup func(fr *Frame)) ([]*Term, State, *Frame) {
-	fr := &Frame{fn: fn, vals: map[ssa.Value]Val{}, out: map[*ssa.BasicBlock]State{}, edge: map[[2]*ssa.BasicBlock]*Term{}, parent: parent, con: con}
+	fr := &Frame{fn: fn, vals: map[ssa.Value]Val{}, out: map[*ssa.BasicBlock]State{}, edge: map[[2]*ssa.BasicBlock]*Term{}, parent: parent, con: con, rangeCount: map[*ssa.Range]*Term{}, assertDone: map[int]bool{}}
 	fr.loops = loopOrdinals(fn)
 	fr.inlined = parent != nil && con == nil
+	fr.args = args
 	for i, p := range fn.Params {
 		fr.vals[p] = args[i]
 	}
@@ -908,9 +913,25 @@ func (e *Enc) cutLoop(fr *Frame, head *ssa.BasicBlock, st *State) {
 		}
 		e.oblige("loop-entry", fmt.Sprintf("loop%d.inv%d", ord, k+1), st, t, token.NoPos).Text = inv.text
 	}
+	ws0 := e.loopWrites(fr, head)
+	frameRegs := e.loopFrameRegs(fr, ws0)
+	if len(frameRegs) > 0 {
+		if f := e.loopFrame(fr, st, frameRegs); f != nil && !tb.isTrue(f) {
+			e.oblige("loop-entry", fmt.Sprintf("loop%d.frame", ord), st, f, token.NoPos).Text = "implicit invariant: the function's frame (assigns clause) holds at the loop head"
+		}
+	}
 	// havoc what the body writes
 	for _, phi := range phis {
 		fr.vals[phi] = Val{T: []*Term{e.fresh("loop_"+phi.Comment, phi.Type())}}
+	}
+	for b := range loopBody(head) {
+		for _, in := range b.Instrs {
+			if nx, ok := in.(*ssa.Next); ok && nx.IsString {
+				c := e.tb.Fresh("rangecount", "Int")
+				e.assume(e.tb.True(), e.tb.Ge(c, e.tb.Int(0)))
+				fr.rangeCount[nx.Iter.(*ssa.Range)] = c
+			}
+		}
 	}
 	ws := e.loopWrites(fr, head)
 	e.havocWrites(st, ws, fmt.Sprintf("loop%d", ord))
@@ -918,6 +939,11 @@ func (e *Enc) cutLoop(fr *Frame, head *ssa.BasicBlock, st *State) {
 	for _, phi := range phis {
 		if phi.Comment == "rangeindex" {
 			e.assume(st.reach, tb.Le(tb.Int(-1), fr.vals[phi].t()))
+		}
+	}
+	if len(frameRegs) > 0 {
+		if f := e.loopFrame(fr, st, frameRegs); f != nil {
+			e.assume(st.reach, f)
 		}
 	}
 	for k, inv := range invs {
@@ -931,9 +957,41 @@ func (e *Enc) cutLoop(fr *Frame, head *ssa.BasicBlock, st *State) {
 	}
 }
 
+// loopFrameRegs: the registers a loop havocs for which the enclosing function's frame is carried as implicit invariant.
+func (e *Enc) loopFrameRegs(fr *Frame, ws *writeSet) []string {
+	if fr.con == nil || fr.con.assigns == nil || fr.parent != nil || ws.all {
+		return nil
+	}
+	var names []string
+	for n := range ws.regs {
+		if _, ok := e.regs[n]; ok {
+			names = append(names, n)
+		}
+	}
+	sort.Strings(names)
+	return names
+}
+
+func (e *Enc) loopFrame(fr *Frame, st *State, regs []string) *Term {
+	allow, err := e.frameAllow(fr, fr.con)
+	if err != nil {
+		return nil
+	}
+	var cs []*Term
+	for _, n := range regs {
+		cs = append(cs, e.frameFormula(fr, allow, st, n))
+	}
+	return e.tb.And(cs...)
+}
+
 func (e *Enc) backEdgeCheck(fr *Frame, p, head *ssa.BasicBlock, st State) {
 	ord := fr.loops[head]
 	invs := e.loopInvs(fr, ord)
+	if regs := e.loopFrameRegs(fr, e.loopWrites(fr, head)); len(regs) > 0 {
+		if f := e.loopFrame(fr, &st, regs); f != nil && !e.tb.isTrue(f) {
+			e.oblige("loop-preserved", fmt.Sprintf("loop%d.frame%s", ord, e.edgeLabel(fr, p)), &st, f, token.NoPos).Text = "implicit invariant: the function's frame (assigns clause) is preserved by the loop body"
+		}
+	}
 	if len(invs) == 0 {
 		return
 	}
@@ -955,7 +1013,8 @@ func (e *Enc) backEdgeCheck(fr *Frame, p, head *ssa.BasicBlock, st State) {
 			e.contractError(fr, fmt.Sprintf("loop%d.inv%d", ord, k+1), err)
 			continue
 		}
-		e.oblige("loop-preserved", fmt.Sprintf("loop%d.inv%d", ord, k+1), &st, t, token.NoPos).Text = inv.text
+		q := e.oblige("loop-preserved", fmt.Sprintf("loop%d.inv%d%s", ord, k+1, e.edgeLabel(fr, p)), &st, t, token.NoPos, e.inputVals()...)
+		q.Text = inv.text
 	}
 	for phi, v := range saved {
 		fr.vals[phi] = v
@@ -1144,6 +1203,7 @@ func (e *Enc) havocAll(st *State, why string) {
 			e.setReg(st, r, e.tb.Store(nw, a.ref, e.tb.Select(e.reg(&old, r), a.ref)))
 		}
 	}
+	e.appendOnlyAfterHavoc(&old, st)
 	e.note("havoc of the whole heap (" + why + ")")
 }
 
@@ -1222,4 +1282,39 @@ func (e *Enc) srcText(fn *ssa.Function, pos token.Pos, want func(ast.Node) bool)
 		return ""
 	}
 	return e.L.nodeText(best)
+}
+
+// edgeLabel names a back edge by the source text of the last call/statement executed before jumping back, so that
+// obligations keep their names when unrelated code moves.
+func (e *Enc) edgeLabel(fr *Frame, p *ssa.BasicBlock) string {
+	b := p
+	for depth := 0; depth < 4 && b != nil; depth++ {
+		for i := len(b.Instrs) - 1; i >= 0; i-- {
+			in := b.Instrs[i]
+			switch in.(type) {
+			case *ssa.Call, *ssa.Store, *ssa.MapUpdate:
+				if in.Pos().IsValid() {
+					t := e.srcText(fr.fn, in.Pos(), func(n ast.Node) bool {
+						switch n.(type) {
+						case *ast.CallExpr, *ast.AssignStmt, *ast.IncDecStmt:
+							return true
+						}
+						return false
+					})
+					if t != "" {
+						if len(t) > 40 {
+							t = t[:40]
+						}
+						return "@" + t
+					}
+				}
+			}
+		}
+		if len(b.Preds) == 1 {
+			b = b.Preds[0]
+		} else {
+			break
+		}
+	}
+	return ""
 }
